@@ -6,7 +6,7 @@ use crate::program::{self, build_verifier, finish_ctx, take_ctx, Dev, Env, Progr
 use crate::proofparts::Parts;
 use crate::props::common::*;
 use crate::recorder::{record_guarded, scalar_from_challenge};
-use crate::refprover::{ref_prove, run_devs, Labels, RunDev};
+use crate::refprover::{run_devs, Labels, RunDev};
 use crate::refverify::{refverify, static_part, Challenges, RefVerdict};
 use crate::schedule::{expected_steps_ordered, run_monitor};
 use crate::schedule::main_events;
@@ -167,6 +167,8 @@ pub enum DevSel {
     RefHonest,
     /// one deviation during the reference prover's run
     Run(RunDev),
+    /// the reference prover with some groups of its random draws forced to zero (no message replaced)
+    RunZero(u32),
     /// two scalar fields traded against each other with a weight taken from the challenges the
     /// verifier derived for the unmodified proof: slot i += 1, slot j += sign * c^(+-1)
     Weighted { i: usize, j: usize, c: usize, inv: bool, neg: bool },
@@ -180,6 +182,7 @@ impl DevSel {
             DevSel::Two(a, b) => format!("{} ; {}", a.name(), b.name()),
             DevSel::RefHonest => "reference prover, no deviation".into(),
             DevSel::Run(d) => d.name(),
+            DevSel::RunZero(m) => format!("reference prover with zero randomness for {{{}}}", crate::refprover::ZERO_GROUPS.iter().enumerate().filter(|(i, _)| m & (1 << i) != 0).map(|(_, n)| *n).collect::<Vec<_>>().join(",")),
             DevSel::Weighted { i, j, c, inv, neg } => format!("{} += 1 ; {} {}= (recorded challenge #{}){}", SC_SLOTS[*i].name(), SC_SLOTS[*j].name(), if *neg { "-" } else { "+" }, c, if *inv { "^-1" } else { "" }),
         }
     }
@@ -254,17 +257,37 @@ fn curve_work<G: Cv>(progs: &[&Program], o: &Opts, start: std::time::Instant, re
             tasks.push((bi, DevSel::Run(d)));
         }
     }
+    // degenerate prover randomness: every subset of the draw groups (thorough) / subsets of size <= 2
+    // and the full set (quick), on the smallest honest bases
+    let n_zero = if o.tier == Tier::Quick { 3 } else { 10 };
+    let mut used = 0;
+    for bi in order.iter() {
+        if bases[*bi].kind != "honest" || labels.is_none() || used >= n_zero {
+            continue;
+        }
+        used += 1;
+        for m in 1u32..1024 {
+            if o.tier == Tier::Quick && m.count_ones() > 2 && m != 1023 {
+                continue;
+            }
+            tasks.push((*bi, DevSel::RunZero(m)));
+        }
+    }
     if let Some(r) = replay {
         tasks.retain(|(bi, d)| Some(bases[*bi].name.as_str()) == r["case"]["base"].as_str() && Some(d.name().as_str()) == r["case"]["deviation"].as_str());
     }
     let res = par_run(&tasks, start, o.budget, |_, (bi, d)| {
         let b = &bases[*bi];
-        if let DevSel::RefHonest | DevSel::Run(_) = d {
+        if let DevSel::RefHonest | DevSel::Run(_) | DevSel::RunZero(_) = d {
             let rd = match d {
                 DevSel::Run(x) => Some(x.clone()),
                 _ => None,
             };
-            let rp = match crate::evidence::guarded(|| ref_prove::<G>(&env, labels.as_ref().unwrap(), &b.prog, o.seed, "c03-ref", rd)) {
+            let zm = match d {
+                DevSel::RunZero(m) => *m,
+                _ => 0,
+            };
+            let rp = match crate::evidence::guarded(|| crate::refprover::ref_prove_z::<G>(&env, labels.as_ref().unwrap(), &b.prog, o.seed, "c03-ref", rd, zm)) {
                 Ok(Ok(p)) => p,
                 Ok(Err(e)) => return Out::Bad { expected: "reference prover runs".into(), observed: e },
                 Err(m) => return Out::Bad { expected: "reference prover runs".into(), observed: format!("panicked: {}", m) },
@@ -297,7 +320,7 @@ fn curve_work<G: Cv>(progs: &[&Program], o: &Opts, start: std::time::Instant, re
             return judge::<G>(&env, &b.prog, &b.comms, &p2, o.seed);
         }
         let parts = match d {
-            DevSel::RefHonest | DevSel::Run(_) | DevSel::Weighted { .. } => unreachable!(),
+            DevSel::RefHonest | DevSel::Run(_) | DevSel::RunZero(_) | DevSel::Weighted { .. } => unreachable!(),
             DevSel::None => b.parts.clone(),
             DevSel::One(d) => apply::<G>(&b.parts, d, &env.pc, o.seed),
             DevSel::Two(d1, d2) => {
@@ -337,6 +360,7 @@ pub fn main(o: &Opts) -> i32 {
         "depth1": "every element of the algebraic deviation alphabet keeping |L|=|R| (identity, negation, +B, +B_blinding, (+T8, T8), scalar 0/neg/+delta, round edits); same-type copies and swaps on the smallest bases",
         "depth2": "all unordered pairs of depth-1 deviations on the smallest bases",
         "challenge_weighted": "on the smallest honest bases: every ordered pair of scalar fields (t_x, t_x_blinding, e_blinding, a, b): first += 1, second += +-c^(+-1) for every challenge c the verifier derived for the unmodified proof (forks included)",
+        "zero_randomness": "the reference prover with every subset of its draw groups {iota, omicron, sigma, s_L, s_R, tau1, tau3, tau4, tau5, tau6} forced to zero (quick: subsets of size <= 2 and the full set) on the smallest honest bases: relations (b),(c) stay true while mandatory points may become the identity",
         "run_deviations": "for every honest base: the reference prover's own honest proof, and every single replacement of one message at the moment it is produced (each point slot: +B, +B_blinding, +G[0], negated, identity; each scalar slot: +1, 0), the rest of the run computed honestly"});
     rep.curves = CURVES.iter().map(|s| s.to_string()).collect();
     rep.rule = "for every base proof (honest and honest-from-bad-witness) and every deviation, the real verdict is compared with an independent verifier that evaluates (a) non-identity, (b) the committed evaluation relation and (c) the inner-product relation with explicit folding, under the challenges recorded from the real run; non-trivial = cases where the reference evaluated (b) and (c)".into();
@@ -364,7 +388,7 @@ pub fn main(o: &Opts) -> i32 {
                         rep.nontrivial += 1;
                     }
                     let depth = if dname == "none" || dname.starts_with("reference prover") { 0 } else if dname.contains(" ; ") { 2 } else { 1 };
-                    let kind = if dname.contains("recorded challenge") { "challenge-weighted" } else if dname.starts_with("during the run") { "run-deviation" } else if dname.starts_with("reference prover") { "reference-prover" } else { kind };
+                    let kind = if dname.contains("zero randomness") { "zero-randomness" } else if dname.contains("recorded challenge") { "challenge-weighted" } else if dname.starts_with("during the run") { "run-deviation" } else if dname.starts_with("reference prover") { "reference-prover" } else { kind };
                     rep.count(&format!("{}/depth{}/{}", kind, depth, if accept { "accept".to_string() } else if evaluated { format!("reject {}", why) } else { format!("reject early: {}", why.split(' ').next().unwrap_or("")) }), 1);
                 }
                 Some(Out::Bad { expected, observed }) => {
